@@ -29,6 +29,8 @@ pub enum Op {
     RecvOne(u16),
     RecvAll(u16),
     Close(u16),
+    /// `Receiver::close()` without draining; the receiver object stays alive (a full channel stays full)
+    CloseKeep(u16),
     Len,
 }
 
@@ -47,6 +49,7 @@ pub fn strategy(max_ops: usize) -> impl Strategy<Value = Case> {
         4 => any::<u16>().prop_map(Op::RecvOne),
         2 => any::<u16>().prop_map(Op::RecvAll),
         1 => any::<u16>().prop_map(Op::Close),
+        1 => any::<u16>().prop_map(Op::CloseKeep),
         2 => Just(Op::Len),
     ];
     (vec(0u8..CAPS.len() as u8, 1..=4), 1u8..=3, vec(op, 1..max_ops)).prop_map(|(caps, publishers, ops)| Case { caps, publishers, ops })
@@ -225,6 +228,16 @@ pub fn check(case: &Case, obs: &mut Obs) -> CheckResult {
                     conns[ci].rx = None;
                     conns[ci].closed = true;
                     conns[ci].queued = 0;
+                }
+            }
+            Op::CloseKeep(c) => {
+                let ci = idx(*c, conns.len());
+                if let Some(rx) = conns[ci].rx.as_mut() {
+                    rx.close();
+                    conns[ci].closed = true;
+                    if conns[ci].queued >= conns[ci].cap {
+                        obs.class("closed-while-full");
+                    }
                 }
             }
             Op::Len => {}
